@@ -13,6 +13,9 @@ GEN = {
     "single:converge": lambda rng: wc.gen_single(rng, "converge"),
     "single:hostile": lambda rng: wc.gen_single(rng, "hostile"),
     "single:plain": lambda rng: wc.gen_single(rng, "plain"),
+    "large:long": lambda rng: wc.gen_large(rng, "long"),
+    "large:manyK": lambda rng: wc.gen_large(rng, "manyK"),
+    "large:bigNW": lambda rng: wc.gen_large(rng, "bigNW"),
     "joint:joint": lambda rng: wc.gen_joint(rng, "joint"),
     "joint:general": lambda rng: wc.gen_joint(rng, "general"),
     "joint:empty_final": lambda rng: wc.gen_joint(rng, "empty_final"),
@@ -43,6 +46,10 @@ def plan_e2e(seed, tag, mix, total, shards=None, extra=None, timeout=None, nwcap
     if shards is None:
         shards = max(16, min(64, total // 4))   # many small shards: the runner keeps 16 busy, which balances slow cases
     specs = []
+    mix = dict(mix)
+    tot_w = float(sum(mix.values()))
+    for name, frac in (("large:long", 0.025), ("large:manyK", 0.025), ("large:bigNW", 0.015)):
+        mix.setdefault(name, tot_w * frac)
     for i, n in enumerate(common.split_counts(total, shards)):
         if n == 0:
             continue
